@@ -146,6 +146,17 @@ func (u *U) Try(v int) bool {
 }
 func (u *U) Spawn() { u.mu.Lock(); go func() { u.out <- 1 }(); u.mu.Unlock() }
 
+type P struct {
+	av atomic.Value
+	ap atomic.Pointer[Inner]
+}
+
+func (p *P) PubGood()    { s := make([]int, 4); s[0] = 1; p.av.Store(s) }
+func (p *P) PubBad()     { s := make([]int, 4); p.av.Store(s); s[0] = 1 }
+func (p *P) PubBadCopy() { s := make([]int, 4); p.av.Store(s); copy(s, []int{1}) }
+func (p *P) PubBadPtr()  { i := &Inner{}; p.ap.Store(i); i.v = 2 }
+func (p *P) PubLoop()    { s := make([]int, 4); for k := 0; k < 2; k++ { s[k] = k; p.av.Store(s) } }
+
 var keepI *Inner
 var keep func()
 
@@ -252,6 +263,17 @@ func selfTest() int {
 			bad++
 		}
 	}
+	// written after publish
+	for _, e := range []struct {
+		fn, field string
+		want      bool
+	}{{"P.PubGood", "av", false}, {"P.PubBad", "av", true}, {"P.PubBadCopy", "av", true}, {"P.PubBadPtr", "ap", true}, {"P.PubLoop", "av", true}} {
+		_, ok := got[e.fn+"|"+e.field+"|KWrite"]
+		if ok != e.want {
+			fmt.Printf("selftest FAIL: written-after-publish fact for %s on %s: got %v, expected %v\n", e.fn, e.field, ok, e.want)
+			bad++
+		}
+	}
 	// call facts
 	type ce struct{ caller, callee, how, locks, written string }
 	gotc := map[string]outCall{}
@@ -333,6 +355,6 @@ func selfTest() int {
 		}
 		return 1
 	}
-	fmt.Printf("selftest ok: %d expectations\n", len(expected)+21)
+	fmt.Printf("selftest ok: %d expectations\n", len(expected)+26)
 	return 0
 }
